@@ -120,9 +120,10 @@ Section Exec.
     end.
 
   (* one command: the memory after the three scanners, the two or three oracle calls, free(txt) *)
-  Inductive runs : nat -> nat -> Z -> mem -> Z -> mem -> Prop :=
-  | runs_done i ret m : frame_ok m -> i = length s -> runs 0 i ret m ret m
-  | runs_step n i ret m Lb Cb Ab i1 w1 i2 w2 i3 w3 g j m5 vt u6 m6 vt' u7 m7 ret' m' :
+  Definition step_rec : Type := (bytes * bytes * Z * bytes)%type.       (* loc, cmd, idx, arg *)
+  Inductive runs : nat -> list step_rec -> nat -> Z -> mem -> Z -> mem -> Prop :=
+  | runs_done i ret m : frame_ok m -> i = length s -> runs 0 [] i ret m ret m
+  | runs_step n tr i ret m Lb Cb Ab i1 w1 i2 w2 i3 w3 g j m5 vt u6 m6 vt' u7 m7 ret' m' :
       frame_ok m -> (i < length s)%nat ->
       nth_error m bl = Some Lb -> nth_error m bc = Some Cb -> nth_error m ba = Some Ab ->
       CapDefs.ex_loc s i (CapDefs.newbuf CapDefs.excap) = CapDefs.Ok (i1, w1) ->
@@ -133,7 +134,8 @@ Section Exec.
       let bt := length m in
       let m4 := upd (upd (upd (m ++ [[VInt 0]]) bl (dblock w1 Lb)) bc (dblock w2 Cb)) ba (dblock w3 Ab) in
       abbr_ptr m cmd g ->
-      (* ln = ex_txt(ln, &txt, abbr) *)
+      (* ln = ex_txt(ln, &txt, abbr): the oracle returns the position the model computes *)
+      CapDefs.ex_txt_src s i3 (CapDefs.ch0 e) (CapDefs.ch1 e) = CapDefs.Ok j ->
       ext X_ex_txt [VPtr bs (Z.of_nat i3); VPtr bt 0; VPtr g 0] m4 = Ok (VPtr bs (Z.of_nat j), m5) ->
       nth_error m5 bt = Some [vt] -> (vt = VInt 0 \/ exists b o, vt = VPtr b o) ->
       (* ret = excmds[idx].ec(loc, cmd, arg, txt)  /  ex_show("unknown command") *)
@@ -143,7 +145,8 @@ Section Exec.
       end ->
       (* free(txt) *)
       nth_error m6 bt = Some [vt'] -> do_builtin_m BFree [vt'] m6 = Ok (u7, m7) ->
-      forall ret'', runs n j ret' m7 ret'' m' -> runs (S n) i ret m ret'' m'.
+      forall ret'', runs n tr j ret' m7 ret'' m' ->
+      runs (S n) ((CapDefs.wstr w1, cmd, idx_res (CapDefs.ex_idx cmd), CapDefs.wstr w3) :: tr) i ret m ret'' m'.
 
   Lemma nthb_nz i : (i < length s)%nat -> nthb s i <> 0%N.
   Proof.
@@ -195,11 +198,11 @@ Section Exec.
     repeat split; try assumption; unfold str_at; rewrite Hext; assumption.
   Qed.
 
-  Lemma exec_while_ok : forall n i ret m ret' m', runs n i ret m ret' m' -> forall v5 v6 fl, (n < fl)%nat -> exists v5' v6',
+  Lemma exec_while_ok : forall n tr i ret m ret' m', runs n tr i ret m ret' m' -> forall v5 v6 fl, (n < fl)%nat -> exists v5' v6',
     exec call fl ex_while (mkst [VPtr bs (Z.of_nat i); VPtr bl 0; VPtr bc 0; VPtr ba 0; VInt ret; v5; v6] m) =
     ONormal (mkst [VPtr bs (Z.of_nat (length s)); VPtr bl 0; VPtr bc 0; VPtr ba 0; VInt ret'; v5'; v6'] m').
   Proof.
-    induction 1 as [i ret m F Hi|n i ret m Lb Cb Ab i1 w1 i2 w2 i3 w3 g j m5 vt u6 m6 vt' u7 m7 ret' m' F Hi HL HC HA E1 E2 cmd e E3 bt m4 Hg X1 Ht Hvt X2 Ht' Hfree ret'' Hrun IH];
+    induction 1 as [i ret m F Hi|n tr i ret m Lb Cb Ab i1 w1 i2 w2 i3 w3 g j m5 vt u6 m6 vt' u7 m7 ret' m' F Hi HL HC HA E1 E2 cmd e E3 bt m4 Hg Etxt X1 Ht Hvt X2 Ht' Hfree ret'' Hrun IH];
       intros v5 v6 fl Hfl; (destruct fl as [|fl]; [lia|]); unfold ex_while; cbn [fn_body cf_ex_exec]; rewrite exec_while; xstep.
     - subst i. rewrite (load_str m bs s _ (length s) (f_line m F)) by lia. xstep. rewrite nthb_end by lia.
       change (negb (wrap I8 (Z.of_N 0) =? 0)) with false. cbv iota. eauto.
@@ -301,6 +304,36 @@ Section Exec.
 
 End Exec.
 
+Lemma nthb_nz0 s : nonul s -> forall i, (i < length s)%nat -> nthb s i <> 0%N.
+Proof.
+  intros Hn i H. unfold nthb. unfold nonul in Hn. rewrite Forall_forall in Hn.
+  specialize (Hn (nth i s 0%N) (nth_In s 0%N H)). unfold byte_ok in Hn. lia.
+Qed.
+  (* the steps of a run are the records of the capacity model's parse loop (CapDefs.exec_loop), in order *)
+  Definition rec_of (p : CapDefs.parsed) : step_rec := (CapDefs.p_loc p, CapDefs.p_cmd p, CapDefs.p_idx p, CapDefs.p_arg p).
+  Lemma idx_res_eq cmd : idx_res (CapDefs.ex_idx cmd) = match CapDefs.ex_idx cmd with Some (k, _) => Z.of_nat k | None => -1 end.
+  Proof. unfold idx_res. destruct (CapDefs.ex_idx cmd) as [[k ab]|]; reflexivity. Qed.
+  Lemma runs_exec_loop ext bs s bl bc ba : nonul s -> forall n tr i ret m ret' m', runs ext bs s bl bc ba n tr i ret m ret' m' ->
+    exists ps, CapDefs.exec_loop (S n) s i = CapDefs.Ok ps /\ tr = map rec_of ps.
+  Proof.
+    intro Hnn. induction 1 as [i ret m F Hi|n tr i ret m Lb Cb Ab i1 w1 i2 w2 i3 w3 g j m5 vt u6 m6 vt' u7 m7 ret' m' F Hi HL HC HA E1 E2 cmd e E3 bt m4 Hg Etxt X1 Ht Hvt X2 Ht' Hfree ret'' Hrun IH].
+    - exists []. split; [|reflexivity]. subst i. cbn [CapDefs.exec_loop]. unfold CapDefs.rd.
+      rewrite (proj2 (nth_error_None s (length s))) by lia. rewrite Nat.eqb_refl. reflexivity.
+    - destruct IH as (ps & IH & ->).
+      assert (P : CapDefs.parse_one s i = CapDefs.Ok (CapDefs.mkParsed (CapDefs.wstr w1) cmd (idx_res (CapDefs.ex_idx cmd)) (CapDefs.wstr w3) j)).
+      { unfold CapDefs.parse_one. rewrite E1. cbn [CapDefs.bind fst snd]. rewrite E2. cbn [CapDefs.bind fst snd]. fold cmd. fold e.
+        rewrite E3. cbn [CapDefs.bind fst snd]. rewrite Etxt. cbn [CapDefs.bind]. rewrite idx_res_eq. reflexivity. }
+      exists (CapDefs.mkParsed (CapDefs.wstr w1) cmd (idx_res (CapDefs.ex_idx cmd)) (CapDefs.wstr w3) j :: ps). split; [|reflexivity].
+      change (CapDefs.exec_loop (S (S n)) s i) with
+        (CapDefs.bind (CapDefs.rd s i) (fun c => if (c =? 0)%N then CapDefs.Ok [] else
+           CapDefs.bind (CapDefs.parse_one s i) (fun p => CapDefs.bind (CapDefs.exec_loop (S n) s (CapDefs.p_next p)) (fun r => CapDefs.Ok (p :: r))))).
+      unfold CapDefs.rd. destruct (nth_error s i) as [c|] eqn:Ec; [|apply nth_error_None in Ec; lia]. cbn [CapDefs.bind].
+      assert (c = nthb s i) as -> by (unfold nthb; symmetry; apply nth_error_nth; exact Ec).
+      destruct (N.eqb_spec (nthb s i) 0) as [Hz|_]; [exfalso; exact (nthb_nz0 s Hnn i Hi Hz)|].
+      rewrite P. cbn [CapDefs.bind CapDefs.p_next]. rewrite IH. cbn [CapDefs.bind]. reflexivity.
+  Qed.
+
+
 (* ------------------------------------------------------------------ ex_exec *)
 Lemma frame3 call f v0 m :
   exec call f exec_frame (mkst [v0; VUndef; VUndef; VUndef; VUndef; VUndef; VUndef] m) =
@@ -335,9 +368,9 @@ Proof.
 Qed.
 
 (* a line shorter than EXLEN: the run the model prescribes *)
-Theorem tr_ex_exec ext m bs s d fuel n ret m' : str_at m bs s -> nonul s -> Z.of_nat (length s) < EXLEN ->
+Theorem tr_ex_exec ext m bs s d fuel n tr ret m' : str_at m bs s -> nonul s -> Z.of_nat (length s) < EXLEN ->
   (length cglobals <= length m)%nat -> (2 * S (length s) <= fuel)%nat -> (S NCMDS < fuel)%nat -> (n < fuel)%nat ->
-  runs ext bs s (length m) (S (length m)) (S (S (length m))) n 0 0 (exec_mem m) ret m' ->
+  runs ext bs s (length m) (S (length m)) (S (S (length m))) n tr 0 0 (exec_mem m) ret m' ->
   callx ext cprog fuel (S (S d)) F_ex_exec [VPtr bs 0] m = Ok (VInt ret, m').
 Proof.
   intros Hs Hn Hlen Hg Hf1 Hf2 Hf3 Hrun. rewrite callx_S. cbn [nth_error cprog F_ex_exec].
@@ -351,6 +384,81 @@ Proof.
   rewrite Nat.sub_0_r. change EXLEN with 512 in Hlen. rewrite wrap_U64_id by lia. change (wrap U64 512) with 512.
   destruct (Z.leb_spec 512 (Z.of_nat (length s))); [lia|]. xstep.
   destruct (exec_while_ok ext fuel d bs s (length m) (S (length m)) (S (S (length m))) Hn Hf1 Hf2 ltac:(lia) ltac:(lia)
-              n 0%nat 0 (exec_mem m) ret m' Hrun VUndef VUndef fuel Hf3) as (v5 & v6 & E).
+              n tr 0%nat 0 (exec_mem m) ret m' Hrun VUndef VUndef fuel Hf3) as (v5 & v6 & E).
   change (Z.of_nat 0) with 0 in E. rewrite E. xstep. reflexivity.
 Qed.
+
+(* ------------------------------------------------------------------ the steps seen by the oracles are ExDefs' parse of the line *)
+From NV Require ExDefs ExCapParse.
+Definition triple_of (r : bytes * bytes * Z * bytes) : bytes * bytes * bytes := let '(l, c, _, a) := r in (l, c, a).
+Definition rec_cmd (r : bytes * bytes * Z * bytes) : bytes := let '(_, c, _, _) := r in c.
+Theorem runs_parse_line ext bs s bl bc ba n tr ret m ret' m' : nonul s ->
+  runs ext bs s bl bc ba n tr 0 ret m ret' m' -> Forall (fun r => ExCapParse.supported (rec_cmd r) = true) tr ->
+  map triple_of tr = ExCapParse.parse_line (S (length s)) s.
+Proof.
+  intros Hn Hrun Hsup. destruct (runs_exec_loop ext bs s bl bc ba Hn n tr 0%nat ret m ret' m' Hrun) as (ps & E & ->).
+  change s with (skipn 0 s) at 2.
+  rewrite (ExCapParse.exec_loop_bridge s (S n) (S (length s)) 0 ps Hn ltac:(lia) E) by (try lia; rewrite Forall_map in Hsup; exact Hsup).
+  rewrite map_map. reflexivity.
+Qed.
+
+(* ------------------------------------------------------------------ ex_command: the nesting guard around ex_exec, then lbuf_modified(xb) *)
+From NV Require Import TrLbuf.
+Notation G_depth := G_ex_command__depth.
+Definition BUFS_LB : nat := 33.
+Lemma tr_ex_lbuf m gbufs bl d fuel : nth_error m G_bufs = Some gbufs -> nth_error gbufs BUFS_LB = Some (VPtr bl 0) ->
+  callf cprog fuel (S d) F_ex_lbuf [] m = Ok (VPtr bl 0, m).
+Proof.
+  intros Hb Hc. enter F_ex_lbuf cf_ex_lbuf. xstep. rewrite (fld_load m G_bufs gbufs BUFS_LB _ _ Hb Hc) by reflexivity. reflexivity.
+Qed.
+
+Theorem tr_ex_command ext m v dep r m1 dep1 gbufs bl blk lb d fuel :
+  nth_error m G_depth = Some [VInt dep] -> 0 <= dep < 16 ->
+  ext X_ex_exec [v] (upd m G_depth [VInt (dep + 1)]) = Ok (VInt r, m1) ->
+  nth_error m1 G_depth = Some [VInt dep1] -> i32 dep1 -> i32 (dep1 - 1) ->
+  let m2 := upd m1 G_depth [VInt (dep1 - 1)] in
+  nth_error m2 G_bufs = Some gbufs -> nth_error gbufs BUFS_LB = Some (VPtr bl 0) ->
+  lbuf_rep m2 bl blk lb -> lbuf_ints lb -> UndoDefs.useq lb < 2147483647 -> v <> VUndef ->
+  callx ext cprog fuel (S (S (S d))) F_ex_command [v] m
+  = Ok (VInt r, upd m2 bl (upd blk L_useq (VInt (UndoDefs.useq lb + 1)))).
+Proof.
+  intros Hd Hdep Hx Hd1 Hi1 Hi1' m2 Hb Hlb R Hints Hmax Hv.
+  enterx F_ex_command cf_ex_command. xstep.
+  rewrite (fld_load m G_depth [VInt dep] 0 _ _ Hd eq_refl) by reflexivity. xstep.
+  rewrite wrap_I32_id by (unfold i32; lia). destruct (Z.ltb_spec dep 16); [|lia]. xstep.
+  rewrite (fld_load m G_depth [VInt dep] 0 _ _ Hd eq_refl) by reflexivity. xstep.
+  rewrite wrap_I32_id by (unfold i32; lia). rewrite chk_I32 by lia. xstep.
+  rewrite (fld_store m G_depth [VInt dep] 0 _ _ Hd) by (cbn [length]; try reflexivity; lia). xstep.
+  cbn [snd fst]. change (upd [VInt dep] 0 (VInt (dep + 1))) with [VInt (dep + 1)].
+  assert (Hgl : match v with VUndef => @Err val EUndef | _ => Ok v end = Ok v) by (destruct v; congruence).
+  rewrite Hgl. xstep. rewrite callx_S, x_ex_exec_none.
+  match goal with |- context [ext X_ex_exec ?a ?mm] => replace (ext X_ex_exec a mm) with (@Ok (val * mem) (VInt r, m1)) by (symmetry; exact Hx) end.
+  xstep. rewrite (fld_load m1 G_depth [VInt dep1] 0 _ _ Hd1 eq_refl) by reflexivity. xstep.
+  rewrite wrap_I32_id by exact Hi1. rewrite chk_I32 by (unfold i32 in Hi1'; lia). xstep.
+  rewrite (fld_store m1 G_depth [VInt dep1] 0 _ _ Hd1) by (cbn [length]; try reflexivity; lia). xstep.
+  cbn [snd fst]. change (upd [VInt dep1] 0 (VInt (dep1 + -1))) with [VInt (dep1 + -1)]. replace (dep1 + -1) with (dep1 - 1) by lia.
+  match goal with |- context [callx ext cprog fuel (S (S d)) F_ex_lbuf [] ?mm] => change mm with m2 end.
+  rewrite (callx_mono ext cprog fuel (S (S d)) F_ex_lbuf _ _ _ (tr_ex_lbuf m2 gbufs bl (S d) fuel Hb Hlb)). xstep.
+  rewrite (callx_mono ext cprog fuel (S (S d)) F_lbuf_modified _ _ _ (proj1 (tr_lbuf_modified m2 bl blk lb d fuel R Hints Hmax))). xstep.
+  reflexivity.
+Qed.
+
+(* the seventeenth level: the message, 1, then lbuf_modified(xb) as always *)
+Theorem tr_ex_command_deep ext m v dep u m1 gbufs bl blk lb d fuel :
+  nth_error m G_depth = Some [VInt dep] -> 16 <= dep -> i32 dep ->
+  ext X_ex_show [VPtr G_lit_636f6d6d616e64206e657374696e6720746f6f20_24 0] m = Ok (u, m1) ->
+  nth_error m1 G_bufs = Some gbufs -> nth_error gbufs BUFS_LB = Some (VPtr bl 0) ->
+  lbuf_rep m1 bl blk lb -> lbuf_ints lb -> UndoDefs.useq lb < 2147483647 ->
+  callx ext cprog fuel (S (S (S d))) F_ex_command [v] m
+  = Ok (VInt 1, upd m1 bl (upd blk L_useq (VInt (UndoDefs.useq lb + 1)))).
+Proof.
+  intros Hd Hdep Hi Hx Hb Hlb R Hints Hmax.
+  enterx F_ex_command cf_ex_command. xstep.
+  rewrite (fld_load m G_depth [VInt dep] 0 _ _ Hd eq_refl) by reflexivity. xstep.
+  rewrite wrap_I32_id by exact Hi. destruct (Z.ltb_spec dep 16); [lia|]. xstep.
+  rewrite callx_S, x_ex_show_none, Hx. xstep.
+  rewrite (callx_mono ext cprog fuel (S (S d)) F_ex_lbuf _ _ _ (tr_ex_lbuf m1 gbufs bl (S d) fuel Hb Hlb)). xstep.
+  rewrite (callx_mono ext cprog fuel (S (S d)) F_lbuf_modified _ _ _ (proj1 (tr_lbuf_modified m1 bl blk lb d fuel R Hints Hmax))). xstep. reflexivity.
+Qed.
+
+Print Assumptions tr_ex_exec. Print Assumptions tr_ex_exec_long. Print Assumptions runs_parse_line. Print Assumptions tr_ex_command. Print Assumptions tr_ex_command_deep.
